@@ -36,6 +36,8 @@ CfgOf(a) ==
       totalBits |-> a.totalBits,
       lst   |-> [on |-> a.listener, S |-> a.ls, C |-> Range(a.lc), hasC |-> a.lhasc] ]
 
+PoolOf(lp) == [ents |-> lp.ents, next |-> lp.next, avail |-> lp.avail]
+
 EntRec(obs, h) == obs.ents[CHOOSE i \in DOMAIN obs.ents : obs.ents[i].e = h]
 
 (* Rebuild the entity part of the ghost from a logged observation. *)
@@ -48,7 +50,8 @@ FromObs(w, obs) ==
                                       [c \in { p[1] : p \in P } |-> (CHOOSE p \in P : p[1] = c)[2]]],
               !.tgt   = [h \in A |-> EntRec(obs, h).tgt],
               !.res   = LET P == Pairs(obs.res) IN
-                        [r \in { p[1] : p \in P } |-> (CHOOSE p \in P : p[1] = r)[2]]]
+                        [r \in { p[1] : p \in P } |-> (CHOOSE p \in P : p[1] = r)[2]],
+              !.pool  = PoolOf(obs.pool)]
 
 ---------------------------------------------------------------------------
 (* Observation checks: the logged projection equals the ghost. *)
@@ -78,6 +81,27 @@ ObsChecks(w, obs) ==
        Chk("C09", "obs-locked", obs.locked = Locked(w)),
        Chk("C20", "obs-resources", Pairs(obs.res) = { <<r, w.res[r]>> : r \in DOMAIN w.res }
                                     /\ Len(obs.res) = Cardinality(DOMAIN w.res)) >>
+
+(* Entity pool: the dump is well-formed and describes the alive set (C02, C17); its evolution *)
+(* follows EntityPool.tla exactly (hidden-state conformance, reported as DRIFT, no verdict).  *)
+PoolChecks(ln, wPre, wPost) ==
+    LET lp == PoolOf(ln.obs.pool)
+        p0 == wPre.pool
+        hs == ln.res.handles
+        okOp == ~ln.res.panic
+        pred ==
+            CASE ln.op \in {"NewEntity", "NewEntityWith", "BuilderNew", "NewBatch"} /\ okOp ->
+                    LET r == PGetN(p0, Len(hs)) IN r.p = lp /\ (ln.op = "NewBatch" \/ r.hs = hs) /\ Range(r.hs) = Range(hs)
+              [] ln.op = "RemoveEntity" /\ okOp /\ ln.args.e \in wPre.alive -> PRecycle(p0, ln.args.e) = lp
+              [] ln.op = "BatchRemove" /\ okOp -> PRecycledSome(p0, lp, wPre.alive \ wPost.alive)
+              [] ln.op = "Reset" /\ okOp -> lp = PoolInit
+              [] ln.op \in {"NewWorld", "Fork", "Load", "TwinEq"} -> TRUE
+              [] OTHER -> lp = p0
+    IN << Chk("C02", "pool-dump-readable", ln.obs.pool.ok),
+          Chk("C17", "pool-dump-wellformed", PWellFormed(lp)),
+          Chk("C02", "pool-dump-alive-set",
+              PAliveSet(lp) = wPost.alive /\ { lp.ents[ln.obs.pool.alive[i] + 1] : i \in DOMAIN ln.obs.pool.alive } = wPost.alive),
+          Chk("DRIFT", "pool-evolves-as-modelled", pred) >>
 
 (* Registered filters select exactly what their originals select (C07). *)
 SweepChecks(w, sw) ==
@@ -168,6 +192,7 @@ OpProps(op) ==
       [] op \in {"Register", "Unregister"} -> <<"C07">>
       [] op \in {"Reset"} -> <<"C15">>
       [] op \in {"ResAdd", "ResRemove"} -> <<"C20">>
+      [] op \in {"Dump", "Load"} -> <<"C17">>
       [] OTHER -> <<"C10">>
 
 (* why: "" when legal; else "locked", "dead-target" or "args".             *)
@@ -422,8 +447,22 @@ EvRes(ln, w) ==
         good == why = "" /\ ~ln.res.panic
     IN Res(IF good THEN ResStep(w, add, r, ln.res.ret) ELSE w, OutcomeChecks(ln, why), {})
 
+EvDump(ln, w) ==
+    Res(w, OutcomeChecks(ln, "") \o
+           << Chk("C17", "entities-survive-json", ln.res.panic \/ ln.jsonOK),
+              Chk("C17", "dump-is-the-pool", ln.res.panic \/
+                    (PoolOf(ln.dump) = w.pool /\ Range(ln.dump.alive) = { h[1] : h \in w.alive }
+                     /\ Len(ln.dump.alive) = Cardinality(w.alive))) >>, {})
+
+EvLoad(ln, w) ==
+    LET why == LoadWhy(w)
+        good == why = "" /\ ~ln.res.panic
+    IN Res(IF good THEN LoadStep(w, ln.args.dump) ELSE w, OutcomeChecks(ln, why), {})
+
 Eval(ln, w) ==
     CASE ln.op = "NewWorld" -> EvNewWorld(ln, w)
+      [] ln.op = "Dump" -> EvDump(ln, w)
+      [] ln.op = "Load" -> EvLoad(ln, w)
       [] ln.op = "NewEntity" -> EvNewEntity(ln, w)
       [] ln.op = "NewEntityWith" -> EvNewEntityWith(ln, w)
       [] ln.op = "BuilderNew" -> EvBuilderNew(ln, w)
@@ -449,36 +488,90 @@ Eval(ln, w) ==
 ---------------------------------------------------------------------------
 (* The trace specification *)
 
-PropIds == { "C01", "C02", "C03", "C04", "C05", "C06", "C07", "C08", "C09", "C10",
+PropIds == { "DRIFT", "C01", "C02", "C03", "C04", "C05", "C06", "C07", "C08", "C09", "C10",
              "C11", "C12", "C13", "C14", "C15", "C16", "C17", "C18", "C19", "C20" }
 
 Failed(cs) == SelectSeq(cs, LAMBDA c : ~c[3])
 
 AllChecks(ln, w, r) ==
     IF r.skip THEN r.c
-    ELSE r.c \o ObsChecks(r.g, ln.obs)
+    ELSE r.c \o ObsChecks(r.g, ln.obs) \o PoolChecks(ln, w, r.g)
              \o (IF "sweep" \in DOMAIN ln THEN SweepChecks(r.g, ln.sweep) ELSE <<>>)
              \o (IF ln.op = "NewWorld" THEN <<>> ELSE EventChecks(w, r.g, ln.events, r.evs))
 
+EmptyCfg == [comps |-> {}, rels |-> {}, sized |-> {}, nres |-> 0, totalBits |-> 256,
+             lst |-> [on |-> FALSE, S |-> 0, C |-> {}, hasC |-> FALSE]]
+
 Init ==
     /\ l = 1
-    /\ g = InitWorld([comps |-> {}, rels |-> {}, sized |-> {}, nres |-> 0, totalBits |-> 256,
-                      lst |-> [on |-> FALSE, S |-> 0, C |-> {}, hasC |-> FALSE]])
+    /\ g = [k \in {0, 1} |-> InitWorld(EmptyCfg)]
     /\ viol = <<>>
     /\ nchk = [p \in PropIds |-> 0]
 
+(* A twin world: forked after Reset (a fresh world with the same registrations) or by LoadEntities. *)
+ForkWorld(ln) ==
+    LET a == ln.args
+        w0 == [InitWorld(CfgOf(a)) EXCEPT !.regs = [i \in DOMAIN a.regs |-> [f |-> a.regs[i].f, live |-> a.regs[i].live]],
+                                          !.nq = g[0].nq]
+    IN IF ln.api = "load" /\ ~ln.res.panic
+       THEN [LoadStep(w0, a.dump) EXCEPT !.iss = ln.obs.issued]
+       ELSE [w0 EXCEPT !.iss = ln.obs.issued]
+
+SetOf(s) == { s[i] : i \in DOMAIN s }
+EvCores(evs) == { NormEv(evs[i]) : i \in DOMAIN evs }
+PanelEq(x, y) == ("panel" \in DOMAIN x) = ("panel" \in DOMAIN y) /\
+                 ("panel" \in DOMAIN x => (x.panel.count = y.panel.count /\ SetOf(x.panel.at) = SetOf(y.panel.at)))
+
+TwinChecks(ln) ==
+    LET a == ln.a b == ln.b IN
+    IF ln.api = "reset" THEN
+       << Chk("C15", "twin-same-outcome", a.res.panic = b.res.panic /\ a.res.ret = b.res.ret),
+          Chk("C15", "twin-same-handles", a.res.handles = b.res.handles /\ a.obs.issued = b.obs.issued
+                                           /\ (ln.of = "BatchRemove" \/ PoolOf(a.obs.pool) = PoolOf(b.obs.pool))),
+          Chk("C15", "twin-same-entities", SetOf(a.obs.ents) = SetOf(b.obs.ents) /\ a.obs.alive = b.obs.alive
+                                            /\ a.obs.used = b.obs.used /\ SetOf(a.obs.all) = SetOf(b.obs.all)),
+          Chk("C15", "twin-same-events", EvCores(a.events) = EvCores(b.events) /\ Len(a.events) = Len(b.events)),
+          Chk("C15", "twin-same-queries", PanelEq(a, b)),
+          Chk("C15", "twin-same-resources-and-lock", a.obs.res = b.obs.res /\ a.obs.locked = b.obs.locked) >>
+    ELSE
+       << Chk("C17", "twin-same-handles", a.res.handles = b.res.handles /\ a.obs.issued = b.obs.issued),
+          Chk("C17", "twin-same-pool", PoolOf(a.obs.pool) = PoolOf(b.obs.pool)
+                                        /\ SetOf(a.obs.pool.alive) = SetOf(b.obs.pool.alive)),
+          Chk("C17", "twin-same-alive-answers", a.obs.alive = b.obs.alive /\ a.obs.used = b.obs.used
+                                                 /\ SetOf(a.obs.all) = SetOf(b.obs.all)),
+          Chk("C17", "twin-second-dump-identical",
+              ln.of # "Dump" \/ (a.res.panic = b.res.panic /\
+                                   (a.res.panic \/ (PoolOf(a.dump) = PoolOf(b.dump) /\ SetOf(a.dump.alive) = SetOf(b.dump.alive))))) >>
+
+Record(fs, ln) == [i \in 1..Len(fs) |-> [line |-> l, i |-> ln.i, op |-> ln.op, prop |-> fs[i][1], check |-> fs[i][2]]]
+
 Step ==
     /\ l <= Len(Trace)
-    /\ LET ln == Trace[l]
-           r  == Eval(ln, g)
-           cs == AllChecks(ln, g, r)
-           fs == Failed(cs)
-           bad == fs # <<>> \/ r.skip
-       IN /\ g' = IF bad /\ ln.op # "NewWorld" THEN FromObs(r.g, ln.obs) ELSE r.g
-          /\ viol' = IF Len(viol) > 200 THEN viol
-                     ELSE viol \o [i \in 1..Len(fs) |->
-                                     [line |-> l, i |-> ln.i, op |-> ln.op, prop |-> fs[i][1], check |-> fs[i][2]]]
+    /\ LET ln == Trace[l] IN
+       IF ln.op = "TwinEq" THEN
+          LET cs == TwinChecks(ln) fs == Failed(cs) IN
+          /\ g' = g
+          /\ viol' = IF Len(viol) > 200 THEN viol ELSE viol \o Record(fs, ln)
           /\ nchk' = FoldSeq(LAMBDA c, acc : [acc EXCEPT ![c[1]] = @ + 1], nchk, cs)
+       ELSE IF ln.op = "Fork" THEN
+          LET w1 == ForkWorld(ln)
+              cs == << Chk("C17", "load-into-fresh-or-reset-world-accepted", ~ln.res.panic) >>
+                    \o ObsChecks(w1, ln.obs) \o PoolChecks(ln, w1, w1)
+              fs == Failed(cs) IN
+          /\ g' = [g EXCEPT ![1] = [w1 EXCEPT !.pool = PoolOf(ln.obs.pool)]]
+          /\ viol' = IF Len(viol) > 200 THEN viol ELSE viol \o Record(fs, ln)
+          /\ nchk' = FoldSeq(LAMBDA c, acc : [acc EXCEPT ![c[1]] = @ + 1], nchk, cs)
+       ELSE
+          LET w  == g[ln.w]
+              r  == Eval(ln, w)
+              cs == AllChecks(ln, w, r)
+              fs == Failed(cs)
+              bad == fs # <<>> \/ r.skip
+              w2 == IF bad /\ ln.op # "NewWorld" THEN FromObs(r.g, ln.obs)
+                    ELSE [r.g EXCEPT !.pool = PoolOf(ln.obs.pool)]
+          IN /\ g' = [g EXCEPT ![ln.w] = w2]
+             /\ viol' = IF Len(viol) > 200 THEN viol ELSE viol \o Record(fs, ln)
+             /\ nchk' = FoldSeq(LAMBDA c, acc : [acc EXCEPT ![c[1]] = @ + 1], nchk, cs)
     /\ l' = l + 1
 
 Next == Step
